@@ -2,6 +2,7 @@
 package main
 
 import (
+	"fmt"
 	"io"
 	"log"
 	"os"
@@ -24,9 +25,62 @@ func run(opts verifmc.Options, param string) (*verifmc.Sched, *explore.Result) {
 	if len(parts) > 1 && parts[1] == "open" {
 		return crashcheck.RunFaultyOpen("c14/"+param, sc, opts)
 	}
-	plan := crashcheck.FaultPlan{Sticky: len(parts) > 1 && parts[1] == "sticky"}
+	if len(parts) > 1 && parts[1] == "conc" {
+		return runConc(opts, param, sc)
+	}
+	plan := crashcheck.FaultPlan{}
+	for _, f := range parts[1:] {
+		switch f {
+		case "sticky":
+			plan.Sticky = true
+		case "settle":
+			plan.Settle = true
+		}
+	}
 	return crashcheck.RunFaulty("c14/"+param, sc, mode, plan, opts)
 }
+
+// runConc: the scenario's concurrent clients (or unsafe batches with persisted
+// callbacks) while persist and load may fail: the persister's in-memory merge
+// path and the overlap of batches with a failing persist.
+func runConc(opts verifmc.Options, param string, sc crashcheck.Scenario) (*verifmc.Sched, *explore.Result) {
+	loud := 0
+	var injLog []string
+	faults := func(op, kind string, id uint64) int {
+		n := 0
+		switch op {
+		case "persist":
+			n = 4
+		case "load":
+			n = 2
+		default:
+			return 0
+		}
+		c := verifmc.Choose(n, "fault:"+op)
+		if c != 0 {
+			loud++
+			injLog = append(injLog, fmt.Sprintf("%s%s#%d:%d", op, kind, id, c))
+		}
+		return c
+	}
+	s, res := crashcheck.Run("c14/"+param, sc, modeConc, opts, faults)
+	asyncErrs := res.Counts["async_errors_in_this_execution"]
+	delete(res.Counts, "async_errors_in_this_execution")
+	if loud > 0 {
+		res.Counts["faults_injected"] += int64(loud)
+	}
+	if res.Failure != "" {
+		res.Failure += fmt.Sprintf(" (faults injected: %v)", injLog)
+		return s, res
+	}
+	if s != nil && s.Failure == "" && loud > 0 && asyncErrs == 0 {
+		res.Failure = fmt.Sprintf("faults %v were injected on persist/load but the asynchronous error callback never fired", injLog)
+	}
+	res.Outcome += " | " + strings.Join(injLog, ",")
+	return s, res
+}
+
+var modeConc = crashcheck.Mode{CheckAcked: true, CheckOpen: true, Depth: 1, Loader: 1}
 
 func main() {
 	log.SetOutput(io.Discard)
@@ -40,19 +94,22 @@ func main() {
 		c.RunReplay(v)
 	}
 	defer recovery.Cleanup()
-	c.Rule = "every directory operation issued after the writer is open is an environment choice point: persist fails before any byte / after half the bytes / after the full write (at sync), load, list and remove fail; transient (that call) and, in the /sticky variants, sticky (every call of that kind until the error was reported twice). A fault costs one deviation like a scheduling deviation, so bound 1 = every single placement along the default schedule plus every single scheduling deviation, bound 2 = all pairs of placements and all (placement, scheduling deviation) pairs. Each faulty trace is then crash-enumerated like C02/C03. distinct_nontrivial = distinct (storage trace, returned errors, async errors) outcomes"
+	c.Rule = "every directory operation issued after the writer is open is an environment choice point: persist fails before any byte / after half the bytes / after the full write (at sync), load, list and remove fail; transient (that call) and, in the /sticky variants, sticky (every call of that kind until the error was reported twice); in the /settle variants the background work comes to rest after every batch, so that the file merges run (and fail) between the batches instead of after the last one. A fault costs one deviation like a scheduling deviation, so bound 1 = every single placement along the default schedule plus every single scheduling deviation, bound 2 = all pairs of placements and all (placement, scheduling deviation) pairs. Each faulty trace is then crash-enumerated like C02/C03. distinct_nontrivial = distinct (storage trace, returned errors, async errors) outcomes"
 	c.Explanation = "stateless exploration of the real writer on the crashfs device with fault answers as explicit choices. Oracle per execution: no panic, no deadlock, comes to rest within the horizon; a fault on persist/load fires the asynchronous error callback and a batch that returns an error was preceded by it; after every batch (failed or not) a held reader answers as at acquisition and a fresh reader shows every batch applied so far; a later nil return makes every earlier batch durable on every crash image (cumulative acknowledgement); no crash image faults at open or shows a non-prefix"
 	c.Assumptions = []string{
-		"single sequential client in safe mode; in the /open scenarios the faults hit a second OpenWriter on a populated directory (list, load, clean-up removes), elsewhere they start after OpenWriter succeeded",
+		"single sequential client in safe mode, except the /conc scenarios (concurrent safe clients, or unsafe batches acknowledged by persisted callbacks, with transient persist/load faults; oracle: crash images as in C02 plus 'a fault is reported'); in the /open scenarios the faults hit a second OpenWriter on a populated directory (list, load, clean-up removes), elsewhere they start after OpenWriter succeeded",
 		"a sticky fault clears once the asynchronous error callback fired twice",
 		"fault placements beyond the deviation bound are not explored",
 	}
-	names := []string{"safe3", "safe3/sticky", "merge4", "merge4/sticky", "safe3keep2", "safe3/open", "merge4/open"}
+	names := []string{"safe3", "safe3/sticky", "merge4", "merge4/sticky", "merge4/settle", "merge-late/settle", "unsafe3upd-cf/conc", "unsafe2x1cb-cf/conc", "safe2x2/conc", "safe3keep2", "safe3/open", "merge4/open"}
+	if c.Thorough() {
+		names = append(names, "unsafe4merge/conc", "unsafe3del-cf/conc", "safe2x1-cf/conc")
+	}
 	if os.Getenv("VERIF_ONLY") != "" {
 		names = strings.Split(os.Getenv("VERIF_ONLY"), ",")
 	}
 	bound := c.Pick(1, 2)
-	budget := c.PickD(80*time.Second, 20*time.Minute)
+	budget := c.PickD(150*time.Second, 30*time.Minute)
 	deadline := time.Now().Add(budget)
 	for i, n := range names {
 		// what is left of the budget is shared by the scenarios still to run
